@@ -5,6 +5,8 @@ import (
 	stderrors "errors"
 	"fmt"
 	"net"
+	"os"
+	"runtime"
 	"sort"
 	"strings"
 	"testing"
@@ -286,6 +288,15 @@ func newGRPCTransport() *transport {
 func runTransport(t *testing.T, name string, tp *transport) {
 	r := &kit.Runner[Script]{Name: name, Exec: tp.execute}
 	r.Run(t, genScript)
+	time.Sleep(50 * time.Millisecond)
+	fmt.Printf("VERIF-C14 note: %d goroutines alive at the end of %s\n", runtime.NumGoroutine(), name)
+	if n := timeoutsSeen.Load(); n >= timeoutBudget && !t.Failed() && os.Getenv("VERIF_REPLAY") == "" {
+		// The statistics have been written by Run. A process in which case after case hangs
+		// has decided nothing: leave with a status the driver reports as INCONCLUSIVE
+		// (non-zero exit without a recorded violation) instead of "passed N tests".
+		fmt.Printf("VERIF-C14 inconclusive: %d cases made no progress within the watchdog; the remaining cases were not run\n", n)
+		os.Exit(4)
+	}
 }
 
 func TestC14Mock(t *testing.T) { runTransport(t, "TestC14Mock", newMockTransport()) }
